@@ -302,7 +302,11 @@ class PathEnum:
             env[k] = ("mut", env[k], path)
             hit = True
         if not hit:
-            env[key] = ("mut", ("var", key), path)
+            base = ("var", key)
+            if key.startswith("_") and key[1:].isdigit():
+                l = int(key[1:])
+                base = ("arg", l) if 1 <= l <= self.fn.nargs else ("var", l)
+            env[key] = ("mut", base, path)
 
 
 def term_place_key(t):
